@@ -383,9 +383,72 @@ Definition node_view (n : node) :=
    | Some ks => Some (map (fun k => (n_move k, n_sims k, Qred (n_value k))) ks)
    | None => None
    end).
-Definition show_search (cutoff mix : Q) (p0 : position) (phs : list phase) (evs : list eval) :=
+
+(* where the model's tree and the observed one first differ: path from the
+   tree and a field code - 1 position, 2 move, 3 v_zero, 4 value, 5 visits,
+   6 child priors, 7 has-children / number of children, 8 an untouched child
+   carries statistics, 9 the children's moves *)
+Definition omove (tbl : list mv) (o : onode) : option mv :=
+  match o with
+  | ONode _ m _ _ _ _ _ => m
+  | OUn _ id => if (id <? 0)%Z then None else nth_error tbl (Z.to_nat id)
+  end.
+
+Fixpoint node_diff (tol : Q) (tbl : list mv) (n : node) (o : onode) {struct n} : option (list Z * Z) :=
+  match o with
+  | OUn chk id =>
+    if negb (opt_eqb mv_eqb (n_move n) (omove tbl o)) then Some ([], 2%Z)
+    else if negb (code_chk (pos_code (n_pos n)) =? chk)%Z then Some ([], 1%Z)
+    else if negb (pristine n) then Some ([], 8%Z) else None
+  | ONode code om ov0 ovalue osims oprobs okids =>
+    match n with
+    | Node p m v0 value sims _ probs kids =>
+      if negb (opt_eqb mv_eqb m om) then Some ([], 2%Z)
+      else if negb (list_eqb Z.eqb (pos_code p) code) then Some ([], 1%Z)
+      else if negb (Z.of_nat sims =? osims)%Z then Some ([], 5%Z)
+      else if negb (qeqb v0 ov0) then Some ([], 3%Z)
+      else if negb (qeqb value ovalue) then Some ([], 4%Z)
+      else
+        match kids, okids with
+        | None, None => None
+        | Some ks, Some oks =>
+          if negb (Nat.eqb (length ks) (length oks)) then Some ([], 7%Z)
+          else if negb (all2 (fun a b => opt_eqb mv_eqb (n_move a) (omove tbl b)) ks oks) then Some ([], 9%Z)
+          else if negb (all2 (fun a b => qclose tol b a) probs oprobs) then Some ([], 6%Z)
+          else
+            (fix go (l : list node) (ol : list onode) (i : Z) : option (list Z * Z) :=
+               match l, ol with
+               | a :: t, b :: ot =>
+                 match node_diff tol tbl a b with
+                 | Some (pth, f) => Some (i :: pth, f)
+                 | None => go t ot (i + 1)%Z
+                 end
+               | _, _ => None
+               end) ks oks 0%Z
+        | _, _ => Some ([], 7%Z)
+        end
+    end
+  end.
+
+(* the model's view for a replay: first difference, the model's node there
+   (visits, value, v_zero, outcome by the rules, children's moves), the model's
+   root, the evaluator answers left over *)
+Definition show_search (cutoff mix : Q) (p0 : position) (phs : list phase) (evs : list eval) (obs : onode) :=
   match run_phases cutoff mix phs (root p0) evs with
-  | Some (n, rest) => Some (node_view n, length rest)
+  | Some (n, rest) =>
+    let d := node_diff (1 # 100000) (table (size p0)) n obs in
+    Some (d,
+          match d with
+          | Some (pth, _) =>
+            match subtree n pth with
+            | Some t => Some (n_sims t, Qred (n_value t), Qred (n_v0 t),
+                              match terminal (n_pos t) with Some o => Some (Qred o) | None => None end,
+                              match n_kids t with Some ks => Some (map n_move ks) | None => None end)
+            | None => None
+            end
+          | None => None
+          end,
+          length rest, node_view n)
   | None => None
   end.
 
